@@ -112,7 +112,11 @@ def conforming_values(mm, objs, fd, rng, wrong=False):
         bad = [i for i, c in enumerate(objs) if i not in ok]
         if wrong:
             # (a CLASSIFIER object offered as a value: the EClass of class 0 / a data type — never a value of a reference)
-            pool = [['o', i] for i in bad] + [['i', 3], ['s', 1], ['k', 0], ['k', -1]]
+            # ['k', 100 + i]: the PYTHON CLASS of class i (here: of the reference's own type) - `a.b = B` with the
+            # parentheses forgotten
+            cnames = [c['name'] for c in mm['classes']]
+            pool = [['o', i] for i in bad] + [['i', 3], ['s', 1], ['k', 0], ['k', -1],
+                                               ['k', 100 + cnames.index(fd['type'])]]
         else:
             pool = [['o', i] for i in ok]
         return rng.choice(pool) if pool else None
